@@ -128,7 +128,7 @@ theorem parses_cpBytearray (p : Nat) (s b : Bytes) (hl : s.length < 2 ^ 32) (h :
   · simp [hc] at h
 
 section
-variable {c : ECfg}
+variable {c : ECfg} {mz : Option PKey → Bool}
 
 /-- The fragment pushes one value for which `P` holds in the (unchanged) heap. -/
 def PPushesV (c : ECfg) (p : Nat) (bs : Bytes) (P : List PObj → PyVal → Prop) (s s' : PSt) : Prop :=
@@ -161,8 +161,9 @@ theorem pexec_str (txt : Bytes) (hv : validUtf8 txt = true) (st : PState) : pexe
   pexec_pushStr txt hv st
 
 /-- `save_unicode` with the memo, on the Python machine. -/
-theorem psaveStrS_okV (p : Nat) (s s' : PSt) (key : Option PKey) (txt b : Bytes) (hv : validUtf8 txt = true)
-    (hkey : ∀ k, key = some k → ∀ h r, PHolds p h k r ↔ r = .str txt) (h : saveStrS p s key txt = some (b, s')) :
+theorem psaveStrS_okV (p : Nat) (s s' : PSt) (key putKey : Option PKey) (txt b : Bytes) (hv : validUtf8 txt = true)
+    (hkey : ∀ k, key = some k → ∀ h r, PHolds p h k r ↔ r = .str txt)
+    (hpk : ∀ k, putKey = some k → ∀ h r, PHolds p h k r ↔ r = .str txt) (h : saveStrS mz p s key putKey txt = some (b, s')) :
     PPushesV c p b (fun _ r => r = .str txt) s s' := by
   unfold saveStrS at h
   cases hfind : key.bind s.find with
@@ -182,7 +183,7 @@ theorem psaveStrS_okV (p : Nat) (s s' : PSt) (key : Option PKey) (txt b : Bytes)
     | none => simp [hcs] at h
     | some b0 =>
       simp only [hcs] at h
-      cases hput : putS p s key with
+      cases hput : putS mz p s putKey with
       | none => simp [hput] at h
       | some r =>
         obtain ⟨pb, s1⟩ := r
@@ -190,7 +191,7 @@ theorem psaveStrS_okV (p : Nat) (s s' : PSt) (key : Option PKey) (txt b : Bytes)
         obtain ⟨rfl, rfl⟩ := h
         have hvv : PPushesV c p b0 (fun _ r => r = .str txt) s s :=
           PPushesV.one (.str txt) _ s (parses_cpStr p txt b0 hcs) (pexec_str txt hv) (fun _ => rfl)
-        exact hvv.put (pputOK_S p s s1 key pb hput) (fun hp r hr k hk => (hkey k hk hp r).mpr hr)
+        exact hvv.put (pputOK_S p s s1 putKey pb hput) (fun hp r hr k hk => (hpk k hk hp r).mpr hr)
 
 theorem pyUtf8Valid_const (m : Bytes) (h : validUtf8 m = true) : pyUtf8Valid false m = true := pyUtf8Valid_of_valid false m h
 
@@ -198,7 +199,7 @@ theorem pyUtf8Valid_const (m : Bytes) (h : validUtf8 m = true) : pyUtf8Valid fal
 theorem psaveGlobalS_ok (p : Nat) (s s' : PSt) (key : PKey) (m n b : Bytes)
     (hkey : ∀ h r, PHolds p h key r ↔ r = .glob m n)
     (hm : (10 : UInt8) ∉ m) (hn : (10 : UInt8) ∉ n) (hvm : validUtf8 m = true) (hvn : validUtf8 n = true)
-    (h : saveGlobalS p s key m n = some (b, s')) :
+    (h : saveGlobalS mz p s key m n = some (b, s')) :
     PPushesV c p b (fun _ r => r = .glob m n) s s' := by
   unfold saveGlobalS at h
   cases hfind : s.find key with
@@ -212,24 +213,24 @@ theorem psaveGlobalS_ok (p : Nat) (s s' : PSt) (key : PKey) (m n b : Bytes)
     simp only [hfind] at h
     by_cases h4 : p ≥ 4
     · simp only [h4, if_true] at h
-      cases h1 : saveStrS p s none m with
+      cases h1 : saveStrS mz p s none none m with
       | none => simp [h1] at h
       | some r1 =>
         obtain ⟨b1, s1⟩ := r1
         simp only [h1] at h
-        cases h2 : saveStrS p s1 none n with
+        cases h2 : saveStrS mz p s1 none none n with
         | none => simp [h2] at h
         | some r2 =>
           obtain ⟨b2, s2⟩ := r2
           simp only [h2] at h
-          cases hput : putS p s2 (some key) with
+          cases hput : putS mz p s2 (some key) with
           | none => simp [hput] at h
           | some r3 =>
             obtain ⟨pb, s3⟩ := r3
             simp only [hput, Option.some.injEq, Prod.mk.injEq] at h
             obtain ⟨rfl, rfl⟩ := h
-            have hs1 := psaveStrS_okV (c := c) p s s1 none m b1 hvm (fun _ hk => by cases hk) h1
-            have hs2 := psaveStrS_okV (c := c) p s1 s2 none n b2 hvn (fun _ hk => by cases hk) h2
+            have hs1 := psaveStrS_okV (c := c) p s s1 none none m b1 hvm (fun _ hk => by cases hk) (fun _ hk => by cases hk) h1
+            have hs2 := psaveStrS_okV (c := c) p s1 s2 none none n b2 hvn (fun _ hk => by cases hk) (fun _ hk => by cases hk) h2
             have hsg : PPushesV c p (b1 ++ b2 ++ [0x93]) (fun _ r => r = .glob m n) s s2 := by
               refine PRunsP.snoc (PRunsP.seq hs1 hs2 (fun _ _ _ _ q => q.1)) (parses_op 0x93 .stackGlobal rfl parseArg_147) ?_
               intro st st2 _ _ _ ⟨st1, _, ⟨_, ⟨r1, hst1, e1⟩, hm1, hh1⟩, hj2, ⟨r2, hst2, e2⟩, hm2, hh2⟩
@@ -241,7 +242,7 @@ theorem psaveGlobalS_ok (p : Nat) (s s' : PSt) (key : PKey) (m n b : Bytes)
             exact hsg.put (pputOK_S p s2 s3 (some key) pb hput)
               (fun hp r hr k hk => by injection hk with hk; subst hk; exact (hkey hp r).mpr hr)
     · simp only [h4, if_false] at h
-      cases hput : putS p s (some key) with
+      cases hput : putS mz p s (some key) with
       | none => simp [hput] at h
       | some r3 =>
         obtain ⟨pb, s3⟩ := r3
@@ -305,11 +306,11 @@ theorem pyExecModule_noLF (p : Int) : (10 : UInt8) ∉ pybuiltinModuleE p := by
 end
 
 section
-variable {p : Nat}
+variable {p : Nat} {mz : Option PKey → Bool}
 
 /-- `save_bytes` with the memo, on the Python machine. -/
 theorem psaveBytesS_ok (s s' : PSt) (key : Option PKey) (d b : Bytes)
-    (hkey : ∀ k, key = some k → ∀ h r, PHolds p h k r ↔ r = .bytes d) (h : saveBytesS p s key d = some (b, s')) :
+    (hkey : ∀ k, key = some k → ∀ h r, PHolds p h k r ↔ r = .bytes d) (h : saveBytesS mz p s key d = some (b, s')) :
     PPushesG (ecfg p) p b (.bytes d) s s' := by
   have hvp : ∀ (n : Nat) (hp : List PObj) (r : PyVal), PRepG n hp r (.bytes d) → ∀ k, key = some k → PHolds p hp k r := by
     intro n hp r hr k hk
@@ -337,7 +338,7 @@ theorem psaveBytesS_ok (s s' : PSt) (key : Option PKey) (d b : Bytes)
       | none => simp [hcb] at h
       | some b0 =>
         simp only [hcb] at h
-        cases hput : putS p s key with
+        cases hput : putS mz p s key with
         | none => simp [hput] at h
         | some r =>
           obtain ⟨pb, s1⟩ := r
@@ -350,12 +351,12 @@ theorem psaveBytesS_ok (s s' : PSt) (key : Option PKey) (d b : Bytes)
       · have hd : d = [] := List.isEmpty_iff.mp hemp
         subst hd
         simp only [List.isEmpty_nil, if_true] at h
-        cases hg : saveGlobalS p s .gBytes (pybuiltinModuleE p) (sb "bytes") with
+        cases hg : saveGlobalS mz p s .gBytes (pybuiltinModuleE p) (sb "bytes") with
         | none => simp [hg] at h
         | some r1 =>
           obtain ⟨g, s1⟩ := r1
           simp only [hg] at h
-          cases hput : putS p s1 key with
+          cases hput : putS mz p s1 key with
           | none => simp [hput] at h
           | some r2 =>
             obtain ⟨pb, s2⟩ := r2
@@ -371,27 +372,27 @@ theorem psaveBytesS_ok (s s' : PSt) (key : Option PKey) (d b : Bytes)
               simp [pyCallGlob, pyExecModule_ne_codecs])
             exact hred.put (pputOK_S p s1 s2 key pb hput) hvp
       · simp only [hemp, Bool.false_eq_true, if_false] at h
-        cases hg : saveGlobalS p s .gEncode (sb "_codecs") (sb "encode") with
+        cases hg : saveGlobalS mz p s .gEncode (sb "_codecs") (sb "encode") with
         | none => simp [hg] at h
         | some r1 =>
           obtain ⟨g, s1⟩ := r1
           simp only [hg] at h
-          cases h1 : saveStrS p s1 none (latin1ToUtf8 d) with
+          cases h1 : saveStrS mz p s1 none none (latin1ToUtf8 d) with
           | none => simp [h1] at h
           | some r2 =>
             obtain ⟨b1, s2⟩ := r2
             simp only [h1] at h
-            cases h2 : saveStrS p s2 (some .sLatin1) (sb "latin1") with
+            cases h2 : saveStrS mz p s2 (some .sLatin1) (some .sLatin1) (sb "latin1") with
             | none => simp [h2] at h
             | some r3 =>
               obtain ⟨b2, s3⟩ := r3
               simp only [h2] at h
-              cases hpt : putS p s3 none with
+              cases hpt : putS mz p s3 none with
               | none => simp [hpt] at h
               | some r4 =>
                 obtain ⟨pt, s4⟩ := r4
                 simp only [hpt] at h
-                cases hput : putS p s4 key with
+                cases hput : putS mz p s4 key with
                 | none => simp [hput] at h
                 | some r5 =>
                   obtain ⟨pb, s5⟩ := r5
@@ -399,9 +400,10 @@ theorem psaveBytesS_ok (s s' : PSt) (key : Option PKey) (d b : Bytes)
                   obtain ⟨rfl, rfl⟩ := h
                   have hgv := psaveGlobalS_ok (c := ecfg p) p s s1 .gEncode (sb "_codecs") (sb "encode") g (fun _ _ => Iff.rfl)
                     (by decide) (by decide) (by decide) (by decide) hg
-                  have hs1 := (psaveStrS_okV (c := ecfg p) p s1 s2 none (latin1ToUtf8 d) b1 (validUtf8_latin1 d) (fun _ hk => by cases hk) h1).toG
+                  have hs1 := (psaveStrS_okV (c := ecfg p) p s1 s2 none none (latin1ToUtf8 d) b1 (validUtf8_latin1 d) (fun _ hk => by cases hk) (fun _ hk => by cases hk) h1).toG
                     (v := .str (latin1ToUtf8 d)) (fun n hp r hr => by simp only [PRepG]; exact hr)
-                  have hs2 := (psaveStrS_okV (c := ecfg p) p s2 s3 (some .sLatin1) (sb "latin1") b2 (by decide)
+                  have hs2 := (psaveStrS_okV (c := ecfg p) p s2 s3 (some .sLatin1) (some .sLatin1) (sb "latin1") b2 (by decide)
+                    (fun k hk => by injection hk with hk; subst hk; exact fun _ _ => Iff.rfl)
                     (fun k hk => by injection hk with hk; subst hk; exact fun _ _ => Iff.rfl) h2).toG
                     (v := .str (sb "latin1")) (fun n hp r hr => by simp only [PRepG]; exact hr)
                   have hitems : PPushesGN (ecfg p) p (b1 ++ b2) [.str (latin1ToUtf8 d), .str (sb "latin1")] s1 s3 := by
@@ -436,7 +438,7 @@ theorem psaveBytesS_ok (s s' : PSt) (key : Option PKey) (d b : Bytes)
 /-- `save_bytearray` with the memo, on the Python machine: a new heap object, or the one memoized. -/
 theorem psaveBytearrayS_ok (s s' : PSt) (key : Option PKey) (d b : Bytes) (hl : d.length < 2 ^ 32)
     (hkey : ∀ k, key = some k → ∀ h r, PHolds p h k r ↔ ∃ id, r = .obj id ∧ h[id]? = some (.bytearray d))
-    (h : saveBytearrayS p s key d = some (b, s')) :
+    (h : saveBytearrayS mz p s key d = some (b, s')) :
     PPushesG (ecfg p) p b (.bytearray d) s s' := by
   have hvp : ∀ (n : Nat) (hp : List PObj) (r : PyVal), PRepG n hp r (.bytearray d) → ∀ k, key = some k → PHolds p hp k r := by
     intro n hp r hr k hk
@@ -464,7 +466,7 @@ theorem psaveBytearrayS_ok (s s' : PSt) (key : Option PKey) (d b : Bytes) (hl : 
       | none => simp [hcb] at h
       | some b0 =>
         simp only [hcb] at h
-        cases hput : putS p s key with
+        cases hput : putS mz p s key with
         | none => simp [hput] at h
         | some r =>
           obtain ⟨pb, s1⟩ := r
@@ -479,7 +481,7 @@ theorem psaveBytearrayS_ok (s s' : PSt) (key : Option PKey) (d b : Bytes) (hl : 
             exact ⟨st.heap.length, rfl, by simp [ppush]⟩
           exact hnat.put (pputOK_S p s s1 key pb hput) hvp
     · simp only [h5, if_false] at h
-      cases hg : saveGlobalS p s .gBytearray (pybuiltinModuleE p) (sb "bytearray") with
+      cases hg : saveGlobalS mz p s .gBytearray (pybuiltinModuleE p) (sb "bytearray") with
       | none => simp [hg] at h
       | some r1 =>
         obtain ⟨g, s1⟩ := r1
@@ -497,7 +499,7 @@ theorem psaveBytearrayS_ok (s s' : PSt) (key : Option PKey) (d b : Bytes) (hl : 
         · have hd : d = [] := List.isEmpty_iff.mp hemp
           subst hd
           simp only [List.isEmpty_nil, if_true] at h
-          cases hput : putS p s1 key with
+          cases hput : putS mz p s1 key with
           | none => simp [hput] at h
           | some r2 =>
             obtain ⟨pb, s2⟩ := r2
@@ -511,17 +513,17 @@ theorem psaveBytearrayS_ok (s s' : PSt) (key : Option PKey) (d b : Bytes) (hl : 
               exact ⟨st.heap.length, rfl, by simp⟩)
             exact hred.put (pputOK_S p s1 s2 key pb hput) hvp
         · simp only [hemp, Bool.false_eq_true, if_false] at h
-          cases hb : saveBytesS p s1 none d with
+          cases hb : saveBytesS mz p s1 none d with
           | none => simp [hb] at h
           | some r2 =>
             obtain ⟨bb, s2⟩ := r2
             simp only [hb] at h
-            cases hpt : putS p s2 none with
+            cases hpt : putS mz p s2 none with
             | none => simp [hpt] at h
             | some r3 =>
               obtain ⟨pt, s3⟩ := r3
               simp only [hpt] at h
-              cases hput : putS p s3 key with
+              cases hput : putS mz p s3 key with
               | none => simp [hput] at h
               | some r4 =>
                 obtain ⟨pb, s4⟩ := r4
